@@ -360,6 +360,26 @@ pub fn search(tier: &str, seed: u64, s: &mut Search) {
             let b = format!(r#"{hdr}<g transform="translate({x} {y}) matrix({sx} 0 0 {sy} {tx} {ty})">{content}</g></svg>"#);
             cmp(s, "nested-svg-viewbox==group", &a, &b, true);
         }
+        // a size given on `use` replaces the size of the referenced `svg` — for the viewport (clip), for the
+        // viewBox mapping, and as the base of percentages inside it
+        {
+            let (w0, h0) = (rng.range(20, 90), rng.range(20, 90));
+            let (w1, h1) = (rng.range(20, 150), rng.range(20, 150));
+            let inner = format!(
+                r##"<rect x="10%" y="10%" width="{}%" height="{}%" fill="{fill}"/><circle cx="50%" cy="50%" r="{}%"/><line x1="0" y1="0" x2="100%" y2="100%" stroke="black"/>"##,
+                rng.range(20, 90), rng.range(20, 90), rng.range(5, 40)
+            );
+            let vb = if rng.chance(1, 3) { format!(r#" viewBox="0 0 {} {}""#, rng.range(10, 60), rng.range(10, 60)) } else { String::new() };
+            let (sw, sh) = match rng.below(3) {
+                0 => (format!(r#" width="{w1}""#), format!(r#" height="{h1}""#)),
+                1 => (format!(r#" width="{w1}""#), String::new()),
+                _ => (String::new(), format!(r#" height="{h1}""#)),
+            };
+            let a = format!(r##"{hdr}<defs><svg id="n" width="{w0}" height="{h0}"{vb}>{inner}</svg></defs><use xlink:href="#n" x="{x}" y="{y}"{sw}{sh}/></svg>"##);
+            let (ew, eh) = (if sw.is_empty() { w0 } else { w1 }, if sh.is_empty() { h0 } else { h1 });
+            let b = format!(r##"{hdr}<defs><svg id="n" width="{ew}" height="{eh}"{vb}>{inner}</svg></defs><use xlink:href="#n" x="{x}" y="{y}"/></svg>"##);
+            cmp(s, "use-size-on-svg==svg-size", &a, &b, false);
+        }
         // a == g
         let a = format!(r#"{hdr}<a xlink:href="http://x" opacity="0.5"><rect width="5" height="5"/></a></svg>"#);
         let b = format!(r#"{hdr}<g opacity="0.5"><rect width="5" height="5"/></g></svg>"#);
